@@ -1,0 +1,54 @@
+package internal
+
+import (
+	"bytes"
+	"fmt"
+	"io"
+
+	"golang.org/x/crypto/openpgp"
+	pgperrors "golang.org/x/crypto/openpgp/errors"
+	"golang.org/x/crypto/openpgp/packet"
+)
+
+// CheckDetachedSignatures verifies a detached signature block that may hold
+// more than one signature. openpgp.CheckDetachedSignature stops reading at
+// the first signature whose issuer it knows; here the block has to be
+// signature packets and nothing else, to its last byte, and every signature
+// made by a key in the keyring has to verify. The signer returned is the
+// first of them. `signed` hands out the signed data afresh for each check.
+func CheckDetachedSignatures(keyring openpgp.KeyRing, signed func() io.Reader, signature []byte) (*openpgp.Entity, error) {
+	var signer *openpgp.Entity
+	var unknown error = pgperrors.ErrUnknownIssuer
+
+	packets := packet.NewOpaqueReader(bytes.NewReader(signature))
+	for {
+		p, err := packets.Next()
+		if err == io.EOF {
+			break
+		}
+		if err != nil {
+			return nil, err
+		}
+		if p.Tag != 2 {
+			return nil, fmt.Errorf("Not a signature: packet of type %d in a signature block", p.Tag)
+		}
+		var one bytes.Buffer
+		if err := p.Serialize(&one); err != nil {
+			return nil, err
+		}
+		entity, err := openpgp.CheckDetachedSignature(keyring, signed(), &one)
+		if err == pgperrors.ErrUnknownIssuer {
+			continue /* somebody else's signature */
+		}
+		if err != nil {
+			return nil, err
+		}
+		if signer == nil {
+			signer = entity
+		}
+	}
+	if signer == nil {
+		return nil, unknown
+	}
+	return signer, nil
+}
